@@ -317,6 +317,14 @@ class Region(object):
             self.drop_guards(ctx, name)
             if e.op == "=":
                 self.bind_alias(name, e.a[0].ty, e.a[1] if top else None, env)
+            elif e.op in ("+=", "-=") and top and ("ptr", name) in env and e.a[0].ty and "*" in e.a[0].ty:
+                # a walking pointer: p += c keeps pointing into the same array, c cells further
+                d = self.form(e.a[1], env)
+                b0, o0 = env[("ptr", name)]
+                if d is not None and o0 is not None:
+                    env[("ptr", name)] = (b0, o0 + d if e.op == "+=" else o0 - d)
+                else:
+                    env.pop(("ptr", name), None)
             else:
                 env.pop(("ptr", name), None)
             if top:
@@ -337,6 +345,12 @@ class Region(object):
             self.drop_guards(ctx, name)
             cur = env.get(name, Poly.atom(name))
             env[name] = cur + (1 if e.op == "++" else -1) if top else unk(name)
+            if ("ptr", name) in env:
+                b0, o0 = env[("ptr", name)]
+                if top and o0 is not None:
+                    env[("ptr", name)] = (b0, o0 + (1 if e.op == "++" else -1))
+                else:
+                    env.pop(("ptr", name), None)
             return
         for x in e.a:
             if isinstance(x, E):
@@ -1073,10 +1087,34 @@ def conj(cond, pol):
     return out
 
 
-def loop_header(s):
+def loop_header(s, extra_updates=False):
     """-> (iv, start E, bound E, step int|Poly, direction, inclusive) or None.
-    for (v = a; v < b; v++ / v += c / v = v + c) ; for (v = a; v >= b; v--)"""
+    for (v = a; v < b; v++ / v += c / v = v + c) ; for (v = a; v >= b; v--)
+    extra_updates: the increment may be a comma list 'v++, p++, q += c' whose other members update other variables (the caller
+    accounts for them: they run at the end of every iteration)"""
     if s.k != "for" or s.cond is None or s.inc is None or s.init is None:
+        return None
+    if extra_updates and s.inc.k == "bin" and s.inc.op == ",":
+        parts = []
+
+        def commas(e):
+            if e.k == "bin" and e.op == ",":
+                commas(e.a[0])
+                commas(e.a[1])
+            else:
+                parts.append(e)
+        commas(s.inc)
+        ivn = None
+        if s.init.k == "expr" and s.init.e.k == "asg" and s.init.e.a[0].k == "var":
+            ivn = s.init.e.a[0].name
+        elif s.init.k == "decl":
+            ivn = s.init.var.name
+        mine = [e for e in parts if e.k in ("asg", "incdec") and e.a[0].k == "var" and e.a[0].name == ivn]
+        rest = [e for e in parts if e not in mine]
+        if len(mine) == 1 and all(e.k in ("asg", "incdec") and e.a[0].k == "var" and
+                                  not any(x.k == "var" and x.name == e.a[0].name for x in ewalk(s.cond)) for e in rest):
+            s2 = S("for", init=s.init, cond=s.cond, inc=mine[0], body=s.body, line=s.line)
+            return loop_header(s2)
         return None
     init = s.init
     if init.k == "expr" and init.e.k == "asg" and init.e.op == "=" and init.e.a[0].k == "var":
